@@ -580,6 +580,22 @@ func (d *Driver) judgeC19() {
 		if x.done != nil && !byApp && (t.Fall == nil || x.done.Step < t.SEnd) && !exitedFirst {
 			d.h.violate("C19", "context-cancelled-during-term", fmt.Sprintf("i%d.%d term from %v: promotion context cancelled at %v while still leading and the callback running", k[0], k[1], t.Start, x.done.T), x.done.T, x.done.Step)
 		}
+		// ... but then the term goes down with it: the library gives up the claim as soon as it notices
+		// the cancellation (the goroutine that does so belongs to no instance the harness knows; its
+		// stalls are the plan's opt-in stalls of unattributed goroutines)
+		if x.done != nil && byApp && !exitedFirst && !o.dead {
+			slack := d.stallIn(k[0], x.done.T, x.done.T+time.Second) + time.Millisecond
+			if d.plan.Sched.StallUnknown {
+				slack += 4 * d.plan.Sched.StallMax
+			}
+			if due := x.done.T + slack; due < d.endAt && (t.Fall == nil || t.End > due) {
+				when := "never"
+				if t.Fall != nil {
+					when = fmt.Sprintf("only at %v", t.End)
+				}
+				d.h.violate("C19", "term-outlives-cancelled-start-context", fmt.Sprintf("i%d.%d term from %v: the application cancelled the context given to Start, the promotion context went down at %v, but the instance gave up the term %s", k[0], k[1], t.Start, x.done.T, when), due, x.done.Step)
+			}
+		}
 		if t.Fall != nil && t.SEnd < d.endStep && !exitedBefore(t.SEnd) {
 			// callback still running at the end of the term: the context must be done by the next quiescent point
 			if x.done == nil || (x.done.T > t.End && x.done.T > x.enter.T) {
